@@ -324,6 +324,42 @@ fn mix_history_case(c: &(Pair, usize), rec: &mut Rec) {
             }
         }
         rec.count_n("failure_subsets", nplans);
+        // each undisturbed point of the temperature lines equals the stand-alone solve at its temperature - also with caller-supplied
+        // (inner, outer) solver options that differ from each other: a loose inner pressure loop under the default outer tolerance must
+        // not change any point, whether it was started cold or from its predecessor
+        if name != "binary_vle" {
+            use feos_core::SolverOptions;
+            let loose_inner = (SolverOptions { tol: Some(1e-3), ..Default::default() }, SolverOptions::default());
+            let many_inner = (SolverOptions { max_iter: Some(60), ..Default::default() }, SolverOptions { max_iter: Some(40), ..Default::default() });
+            for (on, opts) in [("default", Default::default()), ("loose_inner", loose_inner), ("max_iter_60_40", many_inner)] {
+                let line = if name == "bubble_point_line" { PhaseDiagram::bubble_point_line(eos, &m, t * 0.8, *np, None, opts) } else { PhaseDiagram::dew_point_line(eos, &m, t * 0.8, *np, None, opts) };
+                let Ok(line) = line else {
+                    rec.skip("temperature line with non-default options fails (conditional)");
+                    continue;
+                };
+                let x = (&m / m.sum()).into_value();
+                for (i, s) in line.states.iter().enumerate() {
+                    let ti = s.vapor().temperature;
+                    let st = if name == "bubble_point_line" { PhaseEquilibrium::bubble_point(eos, ti, &x, None, None, opts) } else { PhaseEquilibrium::dew_point(eos, ti, &x, None, None, opts) };
+                    // the pressure part of dew_point_line is specified by pressure: compare at the point's pressure instead
+                    let st = match (st, name) {
+                        (Ok(st), _) if rel(st.vapor().pressure(Contributions::Total).to_reduced(), s.vapor().pressure(Contributions::Total).to_reduced()) < 1e-3 => Ok(st),
+                        (_, "dew_point_line") => PhaseEquilibrium::dew_point(eos, s.vapor().pressure(Contributions::Total), &x, Some(ti), None, opts),
+                        (r, _) => r,
+                    };
+                    if let Ok(st) = st {
+                        let d = vle_distance(s, &st);
+                        // a cold start next to the critical end of the line can land on the other branch (recorded C12 findings of the
+                        // guess lattice); that is a different solution, not a perturbed one, and is counted instead of compared
+                        if d > 1e-2 {
+                            rec.count("standalone_solve_on_another_branch");
+                            continue;
+                        }
+                        rec.check("diagram_point=standalone", &format!("{name}|{on}|{i}"), d / 1e-6, true, || format!("{name} ({on} options) point {i} differs from the stand-alone point with the same options by {d:e}"));
+                    }
+                }
+            }
+        }
         // each undisturbed interior point equals the stand-alone solve without any guess
         if name == "binary_vle" {
             for (i, s) in d0.states.iter().enumerate() {
